@@ -126,7 +126,7 @@ PROPS["C01"] = dict(
                "(the crate is compiled with overflow checks and debug assertions), bad shift and division by zero into a proof obligation that the SAT solver must show unreachable for all inputs within the bound.",
     level_note="Bounds per driver are listed in the evidence (buffer sizes 8..256 bytes, all argument values). Outside: larger buffers, 32-bit usize, Debug/Display formatting, ElfStream (C08). Trusted: Kani's panic instrumentation.",
     groups=[
-        K("core", ["c01::"], functions=["file::parse_ident on slices of any length 0..=20", "NoteIterator::next with any usize alignment", "GnuHashTable::{new,find} both classes", "SysVHashTable::{new,find}", "ParsingTable::get with any index"],
+        K("core", ["c01::", "c03::section_data_64le", "c03::segment_data_32be"], functions=["ElfBytes::section_data / segment_data with a fully symbolic header (incl. SHF_COMPRESSED)", "file::parse_ident on slices of any length 0..=20", "NoteIterator::next with any usize alignment", "GnuHashTable::{new,find} both classes", "SysVHashTable::{new,find}", "ParsingTable::get with any index"],
           bounds="ident buffer length 0..=20; note area <= 24 bytes, align any usize; GNU table 32/36 bytes (all header words arbitrary), 2 symbols; SysV table 28 bytes; all bytes symbolic", timeout_s=900, jobs=8),
         M(["L5", "L8", "L9", "Lbyname"], ["C01."], bounds="engine B: every panic edge (overflow assert, expect/unwrap, index) of minimal_parse/find_shdrs/find_phdrs (all header fields symbolic, no size bound) and of symbol_table, dynamic_symbol_table, "
           "dynamic, section_headers_with_strtab, symbol_version_table, section_header_by_name on section tables of 1..3 entries with every header field symbolic is unreachable"),
@@ -346,7 +346,7 @@ PROPS["C05"] = dict(
     level_note="The byte->field decoding of the file header and of shdr[0] is an uninterpreted function here (decided byte-exactly by engine A in C02). Scoping: with e_phnum == 0xffff the property presupposes a section table (e_shoff != 0). "
                "section_headers_with_strtab (SHN_XINDEX) and the sh_entsize gates of symbol/dynamic/version tables: see the engine-B file-level lemmas (thorough).",
     groups=[
-        M(["L5", "L3", "L8"], ["C05.", "L5.", "L3.", "L8."], bounds="all header fields symbolic (u16/u32/u64), file length symbolic u64; both classes; open is loop-free; "
+        M(["L5", "L3", "L8", "L7strtab"], ["C05.", "L5.", "L3.", "L8."], bounds="all header fields symbolic (u16/u32/u64), file length symbolic u64; both classes; open is loop-free; "
           "L8 (SHN_XINDEX string table, sh_entsize gates of symtab/dynsym/.dynamic): section tables of 1..2 entries with every header field symbolic"),
         M(["L8both", "L9"], ["C05.", "L8.", "C13.versym"], tier="thorough", bounds="L8 for both classes; .gnu.version entsize gate"),
         K("core", ["c05::"], tier="thorough", functions=["ElfBytes::minimal_parse", "find_shdrs", "find_phdrs", "SectionHeaderTable::get", "SegmentTable::get"],
